@@ -24,6 +24,11 @@
   push_only / peel_pushed      a Vec created empty whose only mutation is push(x): its elements are the pushed values
   completeness_relay(..)       completeness() through such a Vec (collect in one loop / helper, process in another): the
                                pushes that fill it must themselves run for every element of the recognised collection
+  reader_scope_table (e)       the stores of per-directory reads in every frame of a READ_ENV_DIR effect (private body behind
+                               the public reader, unrolled loop over a literal (directory name, &mut field) table)
+  eval_value / behaviour_function / normal_name_parts / writer_suffix_table_nf
+                               the writer's suffix as a function of the entry's behaviour, evaluated per variant
+  mkdir_recursive              create_dir_all | DirBuilder configured with recursive(true) (EffectsX knows DirBuilder::create)
 """
 import re
 
@@ -76,8 +81,65 @@ class EffectsX(Effects):
     opaque CALLBACK.  When the callee value is a closure literal of the workspace, the body is expanded like a private
     helper (parameters bound to the tuple's components, captures to the values at the creation site)."""
     FN_CALLS = ('std::ops::Fn::call', 'std::ops::FnMut::call_mut', 'std::ops::FnOnce::call_once')
+    # `DirBuilder::new().recursive(r).create(p)` is `fs::create_dir_all(p)` (r = true) / `fs::create_dir(p)` (r = false): a
+    # directory creation like the other two (confinement, order, result and recursion obligations apply: mkdir_recursive)
+    EXTRA_VOCAB = {'std::fs::DirBuilder::create': ('MKDIR', 1)}
+
+    def __init__(self, prog, slicer, vocab=None, **kw):
+        v = dict(self.EXTRA_VOCAB)
+        v.update(vocab or {})
+        super().__init__(prog, slicer, vocab=v, **kw)
+
+    OO = 'std::fs::OpenOptions::'
+
+    def _open_config(self, fn, c):
+        """{option: bool} of the OpenOptions builder `open` is called on, read off the builder value (a chain of option
+        calls on OpenOptions::new() / File::options()); None when it is configured in a way that is not read off the value"""
+        v = strip(self.slicer.operand(fn, c.args[0]))
+        conf = {}
+        for _ in range(12):
+            if v[0] != 'call':
+                return None
+            if v[1] in (self.OO + 'new', 'std::fs::File::options') and not v[2]:
+                site = v[3] if len(v) == 4 else None
+                # options set by statements on the same builder are not in the value: undecided
+                for k in fn.calls:
+                    if k is c or k.indirect or not (k.decl or k.name or '').startswith(self.OO) or not k.args:
+                        continue
+                    rv = self.slicer.operand(fn, k.args[0])
+                    if any(x[0] == 'call' and len(x) == 4 and x[3] == site for x in walk(rv)) and \
+                            not any(x[0] == 'call' and len(x) == 4 and x[3] == (fn.path, k.bb) for x in walk(strip(self.slicer.operand(fn, c.args[0])))):
+                        return None
+                return conf
+            if v[1].startswith(self.OO) and len(v[2]) == 2:
+                a = strip(v[2][1])
+                if not (a[0] == 'const' and isinstance(a[1], bool)):
+                    return None
+                conf.setdefault(v[1][len(self.OO):], a[1])      # outermost = last applied wins
+                v = strip(v[2][0])
+                continue
+            if v[1].endswith('OpenOptionsExt::mode') and v[2]:
+                v = strip(v[2][0])
+                continue
+            return None
+        return None
 
     def _expand_call1(self, fn, c, forall, mode, mapping, chain, stack, out):
+        if not c.indirect and c.is_(self.OO + 'open') and len(c.args) == 2:
+            # `OpenOptions::new().write(true).create(true).truncate(true).open(p)?.write_all(d)` is `fs::write(p, d)`
+            # (std's own definition of fs::write); with create_new(true) it is File::create_new.  Any other configuration
+            # stays the lib's opaque OPEN effect (mutating, contents not understood)
+            conf = self._open_config(fn, c)
+            if conf and conf.get('write') and not conf.get('append') and not conf.get('read') and \
+                    ((conf.get('create') and conf.get('truncate')) or conf.get('create_new')):
+                from .lib.effects import Eff
+                args = tuple(self.subst(self.slicer.operand(fn, a), mapping) for a in c.args)
+                data = self._written_to(fn, c)
+                a2 = (args[1],) + ((self.subst(data, mapping),) if data is not None else ())
+                ef = Eff('WRITE', args[1], c, chain, mode == 'must', self.subst(forall, mapping) if forall is not None else None, a2)
+                ef.mapping = mapping
+                out.append(ef)
+                return
         if not c.indirect and c.decl in self.FN_CALLS and len(c.args) == 2 and c.res in self.prog.fns and self.prog.fns[c.res].kind == 'Closure':
             clv = self.slicer.operand(fn, c.args[0])
             tv = self.slicer.operand(fn, c.args[1])
@@ -90,6 +152,66 @@ class EffectsX(Effects):
                         e.mapping = {}
                 return
         return super()._expand_call1(fn, c, forall, mode, mapping, chain, stack, out)
+
+
+DIRBUILDER = 'std::fs::DirBuilder::'
+_BUILDER_NEUTRAL = ('DirBuilderExt::mode',)
+
+
+def mkdir_recursive(sl, e):
+    """does the MKDIR effect e create missing parents?  True | False | None (not decided).
+    `fs::create_dir_all` does, `fs::create_dir` does not; `DirBuilder::create` does iff the builder it is called on was
+    configured with `recursive(true)` — read off the builder value (`new().recursive(c)` chains), or, for a builder held
+    in a variable and configured by statements, from the `recursive(..)` calls on the same `DirBuilder::new()`"""
+    c = e.call
+    if c.is_('std::fs::create_dir_all'):
+        return True
+    if c.is_('std::fs::create_dir'):
+        return False
+    if not c.is_(DIRBUILDER + 'create') or not c.args:
+        return None
+    f = c.fn
+    v = strip(sl.operand(f, c.args[0]))
+    news = [x for x in walk(v) if x[0] == 'call' and x[1] == DIRBUILDER + 'new' and len(x) == 4]
+    if len(news) != 1:
+        return None
+    site = news[0][3]
+    # configuration seen in the value (chained calls), outermost = last applied
+    cur = v
+    chained = None
+    for _ in range(8):
+        cur = strip(cur)
+        if cur[0] == 'call' and cur[1] == DIRBUILDER + 'recursive' and len(cur[2]) == 2:
+            if chained is None:
+                a = strip(cur[2][1])
+                chained = a[1] if (a[0] == 'const' and isinstance(a[1], bool)) else 'unknown'
+            cur = cur[2][0]
+        elif cur[0] == 'call' and cur[1].endswith(_BUILDER_NEUTRAL) and cur[2]:
+            cur = cur[2][0]
+        else:
+            break
+    if strip(cur) != news[0] and not (strip(cur)[0] == 'call' and strip(cur)[1] == DIRBUILDER + 'new'):
+        return None
+    # configuration by statements on the same builder (calls not part of the receiver value)
+    others = []
+    for k in f.calls:
+        if k is c or k.indirect or not k.is_(DIRBUILDER + 'recursive') or len(k.args) != 2:
+            continue
+        rv = sl.operand(f, k.args[0])
+        if not any(x[0] == 'call' and len(x) == 4 and x[1] == DIRBUILDER + 'new' and x[3] == site for x in walk(rv)):
+            continue
+        if any(x[0] == 'call' and len(x) == 4 and x[3] == (f.path, k.bb) for x in walk(v)):
+            continue      # part of the chain already read
+        others.append(k)
+    if not others:
+        return None if chained == 'unknown' else bool(chained)
+    if chained is not None or len(others) != 1:
+        return None
+    k = others[0]
+    a = strip(sl.operand(f, k.args[1]))
+    if a[0] == 'const' and isinstance(a[1], bool) and f.dominates(k.bb, c.bb) and not f.in_loop(k.bb):
+        return a[1]
+    return None
 
 
 class closure_calls_expanded:
@@ -250,6 +372,69 @@ def reader_scope_table(prog, sl):
             if recv[0] != 'field':
                 continue
             _scan(sl, f, c.bb, sl.operand(f, c.args[2]), recv[2] + '[*]', root, table, detail, sl.operand(f, c.args[1]))
+    # (e) the same two store shapes in every *frame* in which a per-directory read runs, taken from the interprocedural
+    #     effects of the layer reader (READ_ENV_DIR with substituted arguments): a private non-generic body behind the
+    #     public function (`read_from_layer_dir(p) = Self::read_from_layer_path(p.as_ref())`), a helper that fills the
+    #     result, and a loop over a literal table of (directory name, &mut field) rows — unrolled by Effects, so that
+    #     `*target = read(dir.join(name))?` is one assignment per row with `target` / `name` replaced by the row's values
+    Ed = EffectsX(prog, sl, vocab={L.R_DIR: ('READ_ENV_DIR', 0)})
+    le_fields = {fd.get('name') for vr in (prog.adt(L.LE) or {}).get('variants', []) for fd in vr.get('fields', [])} \
+        if isinstance(prog.adt(L.LE), dict) else set()
+    frames, fseen = [], set()
+    for e in Ed.expand(g, 'may'):
+        if e.kind != 'READ_ENV_DIR' or e.call is None:
+            continue
+        for f, m in [(l.call.fn, getattr(l, 'mapping', None) or {}) for l in e.chain] + [(e.call.fn, e.mapping or {})]:
+            if f in fns and not m.get('__repl__') and not any(isinstance(k_, tuple) and k_[0] == f.path for k_ in m):
+                continue          # already scanned above, in its own terms (nothing bound: no row / argument to substitute)
+            k = (f.path, repr(sorted((str(a), canon(b) if isinstance(b, tuple) else repr(b)) for a, b in m.items())))
+            if k not in fseen:
+                fseen.add(k)
+                frames.append((f, m))
+    for f, m in frames:
+        sub = lambda v: Ed.subst(v, m)
+        for key, defs in f.defs().items():
+            if not (isinstance(key, tuple) and key[1] == 'partial'):
+                continue
+            for d in defs:
+                if d[0] == 'stmt':
+                    v = sl._rvalue(f, d[3], set(), 0, None)
+                elif d[0] == 'call':
+                    v = sl._call_value(f, d[3], set(), 0)
+                else:
+                    continue
+                pl = d[4]
+                fld = [p for p in pl[1:] if p != '*']
+                fname = None
+                if len(fld) == 1 and f.locals[pl[0]].get('head') == L.LE:
+                    fname = fld[0][1:]
+                elif not fld and '*' in pl[1:]:
+                    # `*target = ..`: the target is what the reference stands for in this frame (a field of the result)
+                    # (the reference itself: its whole-local definitions, not what was stored through it)
+                    tvs = []
+                    for wd_ in f.whole_defs(pl[0]):
+                        if wd_[0] == 'stmt':
+                            tvs.append(strip(sub(sl._rvalue(f, wd_[3], set(), 0, None))))
+                        else:
+                            tvs.append(('unknown', 'reference produced by a call'))
+                    if len(tvs) == 1 and tvs[0][0] == 'field' and isinstance(tvs[0][2], str) and tvs[0][2] in le_fields \
+                            and not str(tvs[0][2]).isdigit():
+                        fname = tvs[0][2]
+                if fname is None:
+                    continue
+                if f in fns and fld:
+                    continue
+                assigned.append((f, d[1], sub(v), fname))
+                _scan(sl, f, d[1], sub(v), fname, root, table, detail)
+        if f in fns:
+            continue
+        for c in f.calls:
+            if c.indirect or not c.name or not c.name.endswith('::insert') or len(c.args) < 3:
+                continue
+            recv = strip(sub(sl.operand(f, c.args[0])))
+            if recv[0] != 'field':
+                continue
+            _scan(sl, f, c.bb, sub(sl.operand(f, c.args[2])), recv[2] + '[*]', root, table, detail, sub(sl.operand(f, c.args[1])))
     # (c) whole-struct construction
     rv = strip(sl.local(g, 0))
     for x in walk(rv):
@@ -544,6 +729,12 @@ class Act:
                 return v if v[2] == p[1:] else BOTTOM
             return ('variant', v, p[1:])
         if p.startswith('['):
+            # `table[i]` with a decided index into a literal table
+            m = re.match(r'^\[_(\d+)\]$', p)
+            if m and v[0] == 'array':
+                iv = self.local(int(m.group(1)))
+                if iv is not BOTTOM and iv[0] == 'const' and isinstance(iv[1], int) and not isinstance(iv[1], bool):
+                    return v[1][iv[1]] if 0 <= iv[1] < len(v[1]) else BOTTOM
             return ('index', v, p)
         return ('field', v, p)
 
@@ -863,6 +1054,13 @@ class Interp:
                 same = canon(a) == canon(b)
                 return ('const', same if any(n.endswith('::eq') for n in names) else not same)
             return None
+        if len(args) == 2 and names & set(BOOL_THEN):
+            # `c.then_some(x)` / `c.then(f)` on a decided c
+            if a0[0] == 'const' and isinstance(a0[1], bool):
+                if not a0[1]:
+                    return NONE
+                return some(args[1]) if any(n.endswith('::then_some') for n in names) else some(inv(args[1]))
+            return None
         if len(args) == 2 and any(n.endswith('::eq_ignore_ascii_case') for n in names):
             a, b = args
             if a[0] == 'const' and b[0] == 'const' and isinstance(a[1], str) and isinstance(b[1], str):
@@ -1141,6 +1339,182 @@ def reader_behaviour(prog, sl):
 
 
 _SPEC_SUFFIXES = ('.append', '.default', '.delim', '.override', '.prepend')
+
+
+# ---------------------------------------------------------------------------------------------------------------------
+# R2 writer: the suffix as a *function of the entry's behaviour*, whatever computes it
+# ---------------------------------------------------------------------------------------------------------------------
+def eval_value(I, v, d=0):
+    """evaluate a symbolic value with the scenario evaluator: std combinators / iterator searches over literal tables /
+    comparisons on decided operands are computed (closures are run on their MIR), everything else is left symbolic"""
+    if not isinstance(v, tuple) or not v or d > 40:
+        return v
+    k = v[0]
+    ev = lambda x: eval_value(I, x, d + 1)
+    if k == 'call':
+        args = [ev(a) for a in v[2]]
+        if any(a is BOTTOM for a in args):
+            return BOTTOM
+        site = v[3] if len(v) == 4 else None
+        g = I.prog.fns.get(v[1])
+        if g is not None and g.kind != 'Closure' and len(args) == g.argc:
+            r = I.enter(g, args, site)        # a private helper computing the value is evaluated on its MIR
+            if r is not None:
+                return r
+        return I.apply({v[1]}, v[1], args, site, None)
+    if k == 'unwrap':
+        x = ev(v[1])
+        if x is BOTTOM or _is(x, 'None', 'Err'):
+            return BOTTOM
+        if _is(x, 'Some', 'Ok'):
+            return _p0(x)
+        return I.sl.mk_unwrap(x) if x != v[1] else v
+    if k == 'field':
+        b = ev(v[1])
+        if b is BOTTOM:
+            return BOTTOM
+        if b[0] == 'phi':
+            return _join([eval_value(I, ('field', x, v[2]), d + 1) for x in b[1]])
+        return I.sl._field(b, v[2]) if isinstance(v[2], str) else ('field', b, v[2])
+    if k in ('tuple', 'array'):
+        return (k, tuple(ev(x) for x in v[1]))
+    if k == 'agg':
+        return ('agg', v[1], v[2], tuple((n, ev(x)) for n, x in v[3]))
+    if k == 'closure':
+        return ('closure', v[1], tuple(ev(x) for x in v[2]))
+    if k == 'phi':
+        return _join([ev(x) for x in v[1]])
+    if k == 'select':
+        s = ev(v[1])
+        if s[0] == 'agg' and s[2] is not None:
+            hit = [val for names, val in v[3] if s[2] in names]
+            return ev(hit[0]) if len(hit) == 1 else BOTTOM
+        return ('select', s, v[2], tuple((names, ev(val)) for names, val in v[3]))
+    return v
+
+
+def _replace(v, key, new):
+    if not isinstance(v, tuple) or not v:
+        return v
+    if v[0] in ('field', 'unwrap') and canon(v) == key:
+        return new
+    return tuple(_replace(x, key, new) if isinstance(x, tuple) else x for x in v)
+
+
+def behaviour_function(prog, sl, wd, x):
+    """a value that depends on the behaviour of the *current entry* of self.entries (and on nothing else undecided) as a
+    `select` over the enum: the value is evaluated once per variant with the behaviour replaced by that variant — a
+    `match`, a lookup in a (behaviour, suffix) table with find / position / find_map, a chain of comparisons are then
+    the same function.  None when x is not such a value (some variant evaluates to something that is not a literal)."""
+    if x[0] == 'select' or x[0] == 'const':
+        return None
+    subjects = []
+    for y in walk(x):
+        if y[0] == 'field':
+            coll, proj = L.loop_element(y)
+            if coll is not None and L.self_field(wd, coll) == 'entries' and proj == ('0', '0') and not any(canon(y) == canon(o) for o in subjects):
+                subjects.append(y)
+    if len(subjects) != 1:
+        return None
+    subj = subjects[0]
+    adt = prog.adt(L.MB)
+    variants = [vr['name'] for vr in adt['variants'] if not vr.get('fields')]
+    if len(variants) != len(adt['variants']):
+        return None
+    arms = []
+    for V in variants:
+        xv = _replace(x, canon(subj), ('agg', L.MB, V, ()))
+        if any(L.loop_element(y)[0] is not None for y in walk(xv) if y[0] == 'field'):
+            return None        # depends on something else of the entry
+        try:
+            r = eval_value(Interp(prog, sl), xv)
+        except RecursionError:
+            return None
+        if r is BOTTOM:
+            continue           # this behaviour cannot get a name (panics): no row for it
+        # (string_parts hands over pieces with `unwrap` / `expect` / `?` peeled: an Option / Result here stands for its
+        # success payload, a None / Err for a panic or early return — no file name for that behaviour)
+        for _ in range(3):
+            r = strip(r)
+            if _is(r, 'Some', 'Ok'):
+                r = _p0(r)
+        if _is(r, 'None', 'Err'):
+            continue
+        if not (r[0] == 'const' and isinstance(r[1], str)):
+            return None
+        arms.append(((V,), r))
+    if not arms:
+        return None
+    return ('select', subj, L.MB, tuple(arms))
+
+
+def normal_name_parts(prog, sl, wd, parts):
+    """pieces of a file name in normal form: behaviour-dependent pieces as `select`s (behaviour_function), and literal text
+    directly before such a select folded into its arms (`name + "." + suffix(b)` = `name + dot_suffix(b)`)"""
+    out = []
+    for p in parts:
+        p = strip(p) if isinstance(p, tuple) else p
+        if isinstance(p, tuple) and p[0] not in ('select', 'const'):
+            s = behaviour_function(prog, sl, wd, p)
+            if s is not None:
+                p = s
+        if isinstance(p, tuple) and p[0] == 'select' and p[2] == L.MB and all(val[0] == 'const' and isinstance(val[1], str) for _, val in p[3]):
+            # (only the separator: a piece "." before arms that carry no dot of their own; any other literal text stays a
+            # piece of its own and is reported as such under R2/writer/file-name)
+            if out and isinstance(out[-1], tuple) and out[-1] == ('const', '.') and all('.' not in val[1] and val[1] for _, val in p[3]):
+                pre = out.pop()[1]
+                p = ('select', p[1], p[2], tuple((names, ('const', pre + val[1])) for names, val in p[3]))
+        out.append(p)
+    return out
+
+
+def writer_suffix_table_nf(prog, sl):
+    """L.writer_suffix_table with the file-name pieces brought to normal form first (normal_name_parts); same result
+    shape: (writer fn, {Variant: '.suffix'}, info)"""
+    L.resolve_roles(prog, sl)
+    f = prog.fn(L.W_DIR)
+    rows = {}
+    info = {'push_calls': 0, 'suffix_pushes': 0, 'name_parts': []}
+    E = EffectsX(prog, sl)
+    root = L.param_pred(f, 1)
+    writes = [e for e in E.expand(f, 'may') if e.kind == 'WRITE' and e.path is not None]
+    info['writes'] = len(writes)
+    for e in writes:
+        cs = L.comps(sl.inline_deep(e.path), root)
+        if cs is None or len(cs) != 1:
+            info.setdefault('odd', []).append('file path is not <dir>/<name>: ' + vstr(e.path)[:80])
+            continue
+        fname = cs[0]
+        parts = L.string_parts(sl, fname) if not isinstance(fname, str) else [('const', fname)]
+        parts = normal_name_parts(prog, sl, f, parts)
+        rendered = []
+        for x in parts:
+            coll, proj = L.loop_element(x)
+            if coll is not None and L.self_field(f, coll) == 'entries' and proj == ('0', '1'):
+                rendered.append('NAME')
+            elif x[0] == 'select' and x[2] == L.MB:
+                c2, p2 = L.loop_element(x[1])
+                if c2 is not None and L.self_field(f, c2) == 'entries' and p2 == ('0', '0'):
+                    rendered.append('SUFFIX')
+                    info['suffix_pushes'] += 1
+                    for names, val in x[3]:
+                        for n in names:
+                            if val[0] == 'const' and n not in rows:
+                                rows[n] = val[1]
+                            else:
+                                info.setdefault('odd', []).append((n, vstr(val)))
+                else:
+                    rendered.append('SUFFIX-OF-ANOTHER-ENTRY')
+            else:
+                rendered.append(vstr(x)[:50])
+        if not info['name_parts']:
+            info['name_parts'] = rendered
+            info['push_call'] = e.call
+        elif rendered != info['name_parts']:
+            info.setdefault('odd', []).append('file names built differently: %s / %s' % (info['name_parts'], rendered))
+    if info['suffix_pushes'] > 1 and len(writes) == info['suffix_pushes']:
+        info['suffix_pushes'] = 1     # cfg-alternative write calls sharing one name construction
+    return f, rows, info
 
 
 # ---------------------------------------------------------------------------------------------------------------------
